@@ -463,7 +463,9 @@ func (l *listFault) Repositories(ctx context.Context, startAfter string) ociregi
 	}
 }
 
-var names = []string{"a", "b", "a/b", "c", "", "../a"}
+// (the first four are the well-formed ones; the last four are other spellings of those, which a policy
+// that is a function of the name it is given may well judge differently)
+var names = []string{"a", "b", "a/b", "c", "", "../a", "c/../a", "a/", "a//b", "./b"}
 
 func genScript(t *rapid.T) Script {
 	s := Script{Wrapper: rapid.SampledFrom([]string{"access", "select"}).Draw(t, "wrapper"), Policy: map[string][4]int{}}
@@ -508,7 +510,7 @@ func genScript(t *rapid.T) Script {
 		s.InnerRejects = rapid.Bool().Draw(t, "innerRejects")
 	}
 	if s.Method == "Repositories" {
-		s.Listed = rapid.SliceOfNDistinct(rapid.SampledFrom([]string{"a", "a/b", "b", "c", "d", "e/f", "*"}), 0, 6, func(x string) string { return x }).Draw(t, "listed")
+		s.Listed = rapid.SliceOfNDistinct(rapid.SampledFrom([]string{"a", "a/b", "b", "c", "d", "e/f", "*", "a//b", "./b"}), 0, 6, func(x string) string { return x }).Draw(t, "listed")
 		sort.Strings(s.Listed)
 		if len(s.Listed) > 0 && rapid.IntRange(0, 3).Draw(t, "listFault") == 0 {
 			s.ListErrAt = rapid.IntRange(1, len(s.Listed)).Draw(t, "listErrAt")
@@ -520,7 +522,7 @@ func genScript(t *rapid.T) Script {
 var prop = &vt.Prop[Script]{
 	ID:   "C12",
 	Name: "FilterWrappersRandomPolicies",
-	Rule: "wrapper in {AccessChecker, Select}; policy = random table (repository name, access kind) -> allow | one of three distinct errors, with a default row (pure function; Select's depends on the name only); method = each of the 18 Interface methods with repositories from {a, b, a/b, c, the empty name, '../a'} (the policy is asked about whatever name the caller passes; mount: source and target, incl. the same repository), resume ids {empty, opaque, shaped like the upload location of each repository} x offsets {-1,0,1,100}, listing start points, backend repository listings incl. a repository named '*'; recording backend that accepts everything; a sixth of the calls are made with an already cancelled context; a third of the resumes present the id of an upload just started through the same wrapper in another (or the same) repository; the sequence of a rejected Tags / Referrers call is run a second time; a quarter of the wrappers are laid over a registry that is itself an AccessChecker/Select wrapper with a counting policy of its own (allow-all or reject-all): that wrapper is the wrapped registry, so a call the outer policy rejects does not reach its policy either and fails with the outer policy's error; oracle = policy rejects => zero backend calls, the policy's own error (Select: name-unknown for read/list/delete, denied for write), no data; policy allows => exactly one backend call with the caller's context and arguments, the backend's own reader/writer/results (writers are used: Write+Commit must land in the backend's session); repository listings = backend's list filtered by the read verdict; a backend listing that breaks off by yielding a name together with an error reaches the consumer as an error without any hidden name; non-trivial = some involved repository is rejected, or a listing is filtered; distinct = (wrapper, method, policy, arguments)",
+	Rule: "wrapper in {AccessChecker, Select}; policy = random table (repository name, access kind) -> allow | one of three distinct errors, with a default row (pure function; Select's depends on the name only); method = each of the 18 Interface methods with repositories from {a, b, a/b, c, the empty name, '../a', and the spellings 'c/../a', 'a/', 'a//b', './b' with verdicts of their own} (the policy is asked about whatever name the caller passes; mount: source and target, incl. the same repository), resume ids {empty, opaque, shaped like the upload location of each repository} x offsets {-1,0,1,100}, listing start points, backend repository listings incl. a repository named '*'; recording backend that accepts everything; a sixth of the calls are made with an already cancelled context; a third of the resumes present the id of an upload just started through the same wrapper in another (or the same) repository; the sequence of a rejected Tags / Referrers call is run a second time; a quarter of the wrappers are laid over a registry that is itself an AccessChecker/Select wrapper with a counting policy of its own (allow-all or reject-all): that wrapper is the wrapped registry, so a call the outer policy rejects does not reach its policy either and fails with the outer policy's error; oracle = policy rejects => zero backend calls, the policy's own error (Select: name-unknown for read/list/delete, denied for write), no data; policy allows => exactly one backend call with the caller's context and arguments, the backend's own reader/writer/results (writers are used: Write+Commit must land in the backend's session); repository listings = backend's list filtered by the read verdict; a backend listing that breaks off by yielding a name together with an error reaches the consumer as an error without any hidden name; non-trivial = some involved repository is rejected, or a listing is filtered; distinct = (wrapper, method, policy, arguments)",
 	Gen:  genScript,
 	Run:  run,
 }
